@@ -313,7 +313,11 @@ func (g *VCGen) invoke(c *ssa.CallCommon, pos token.Pos, v *ssa.Call) []SpecVal 
 		label = "invoke@" + v.Name() + ":" + c.Method.Name()
 	}
 	g.usedCallees["interface "+fc.Name] = true
+	preState := g.cur
 	res := g.applyContract(fc, g.eng.typesPkg(fc.Pkg), names, args, resTypes, resNames, pos, label)
+	if len(fc.RefinedBy) > 0 {
+		res = g.refineInvoke(fc, c, preState, res, args, resTypes, pos, label)
+	}
 	if gname, ok := g.eng.contracts.Tracks[fc.Pkg+"::"+fc.Name]; ok {
 		h := g.ghostHeap(gname)
 		g.setHeap(g.cur, h, fmt.Sprintf("(store %s %s true)", g.heapTerm(g.cur, h), recv.T))
@@ -501,4 +505,157 @@ func (g *VCGen) inlineCall(fn *ssa.Function, args []SpecVal, pos token.Pos) []Sp
 		}
 	}
 	return nil
+}
+
+// refineInvoke: the open-world interface contract has been applied (g.cur is its post-state, openRes its results).
+// For every receiver type listed in 'refinedby', the (separately verified) contract of that type's method is
+// additionally available under the guard "dynamic type is T and T's precondition holds": in that case the
+// post-state is the one described by T's modifies/ensures clauses.
+func (g *VCGen) refineInvoke(fc *FuncContract, c *ssa.CallCommon, pre *State, openRes []SpecVal, args []SpecVal, resTypes []types.Type, pos token.Pos, label string) []SpecVal {
+	postOpen := g.cur
+	env0 := &SpecEnv{g: g, pkg: g.eng.typesPkg(fc.Pkg)}
+	type cand struct {
+		guard string
+		post  *State
+		res   []SpecVal
+	}
+	var cands []cand
+	recv := args[0]
+	for _, tn := range fc.RefinedBy {
+		_, gt := env0.resolveSort(tn)
+		if gt == nil {
+			panic(specErr("refinedby: unknown type " + tn))
+		}
+		sel := g.eng.prog.MethodSets.MethodSet(gt).Lookup(c.Method.Pkg(), c.Method.Name())
+		if sel == nil {
+			continue
+		}
+		fn := g.eng.prog.MethodValue(sel)
+		if fn == nil {
+			continue
+		}
+		cfc := g.eng.contractFor(fn)
+		if cfc == nil || cfc.HasPreserves {
+			continue
+		}
+		var rv SpecVal
+		ts := g.so.sortOf(gt)
+		if ts == "Int" {
+			rv = SpecVal{fmt.Sprintf("(if.ref %s)", recv.T), "Int", gt}
+		} else {
+			_, unbox := g.boxFns(ts)
+			rv = SpecVal{fmt.Sprintf("(%s (if.ref %s))", unbox, recv.T), ts, gt}
+		}
+		names := sigParamNames(fn.Signature)
+		if len(fn.Params) == len(args) {
+			for i, p := range fn.Params {
+				names[i] = recvName(fn, i, p)
+			}
+		}
+		cargs := append([]SpecVal{rv}, args[1:]...)
+		penv := &SpecEnv{g: g, vars: map[string]SpecVal{}, cur: pre, old: pre, pkg: g.eng.typesPkg(cfc.Pkg)}
+		for i, n := range names {
+			if i < len(cargs) {
+				penv.vars[n] = cargs[i]
+			}
+		}
+		guards := []string{fmt.Sprintf("(= (if.tag %s) %s)", recv.T, g.so.typeTag(gt))}
+		if ts == "Int" {
+			guards = append(guards, fmt.Sprintf("(not (= (if.ref %s) 0))", recv.T))
+		}
+		for _, r := range cfc.Requires {
+			guards = append(guards, g.trClause(penv, r))
+		}
+		if cfc.PanicsIff != nil {
+			guards = append(guards, not(g.trClause(penv, *cfc.PanicsIff)))
+		}
+		guard := g.freshConst("refine!guard", "Bool")
+		g.assume(fmt.Sprintf("(= %s %s)", guard, and(guards...)))
+		g.cur = pre
+		post := g.havocFor(pre, g.modLocs(penv, cfc.Modifies), true)
+		var results []SpecVal
+		var resNames []string
+		for i, t := range resTypes {
+			s := g.so.sortOf(t)
+			name := g.freshConst(smtSym(label)+"!c"+fmt.Sprint(i), s)
+			sv := SpecVal{name, s, t}
+			results = append(results, sv)
+			g.rangeFact(sv)
+			resNames = append(resNames, fn.Signature.Results().At(i).Name())
+		}
+		qenv := &SpecEnv{g: g, vars: penv.vars, cur: post, old: pre, pkg: penv.pkg, results: results, resNames: resNames}
+		for _, e := range cfc.Ensures {
+			g.assume(implies(guard, g.trClause(qenv, e)))
+		}
+		g.usedCallees[fn.String()+" (under its dynamic type)"] = true
+		cands = append(cands, cand{guard, post, results})
+	}
+	if len(cands) == 0 {
+		g.cur = postOpen
+		return openRes
+	}
+	var gs []string
+	for _, cd := range cands {
+		gs = append(gs, cd.guard)
+	}
+	none := not(or(gs...))
+	merged := postOpen.clone()
+	names := map[string]bool{}
+	for h := range postOpen.heaps {
+		names[h] = true
+	}
+	for h := range pre.heaps {
+		names[h] = true
+	}
+	for h := range g.so.heaps {
+		names[h] = true
+	}
+	for _, cd := range cands {
+		for h := range cd.post.heaps {
+			names[h] = true
+		}
+	}
+	for h := range names {
+		if g.immutableHeap(h) {
+			continue
+		}
+		open := g.heapTerm(postOpen, h)
+		same := true
+		for _, cd := range cands {
+			if g.heapTerm(cd.post, h) != open {
+				same = false
+			}
+		}
+		if same {
+			continue
+		}
+		name := g.freshName(h + "@refine")
+		g.declare(name, g.so.heaps[h])
+		g.assume(implies(none, fmt.Sprintf("(= %s %s)", name, open)))
+		for _, cd := range cands {
+			g.assume(implies(cd.guard, fmt.Sprintf("(= %s %s)", name, g.heapTerm(cd.post, h))))
+		}
+		merged.heaps[h] = name
+	}
+	nr := g.freshConst("nextRef@refine", "Int")
+	g.assume(implies(none, fmt.Sprintf("(= %s %s)", nr, postOpen.nextRef)))
+	for _, cd := range cands {
+		g.assume(implies(cd.guard, fmt.Sprintf("(= %s %s)", nr, cd.post.nextRef)))
+	}
+	merged.nextRef = nr
+	g.cur = merged
+	var out []SpecVal
+	for i, t := range resTypes {
+		s := g.so.sortOf(t)
+		name := g.freshConst(smtSym(label)+"!m"+fmt.Sprint(i), s)
+		g.assume(implies(none, fmt.Sprintf("(= %s %s)", name, openRes[i].T)))
+		for _, cd := range cands {
+			g.assume(implies(cd.guard, fmt.Sprintf("(= %s %s)", name, cd.res[i].T)))
+		}
+		sv := SpecVal{name, s, t}
+		g.rangeFact(sv)
+		g.assumeHere(g.allocFact(name, t, merged))
+		out = append(out, sv)
+	}
+	return out
 }
